@@ -110,12 +110,37 @@ def nthKey {κ} (d : Dict κ) (i : Nat) : Except String κ :=
   | none => throw s!"ballot index {i} out of range"
 
 /-- cross-check of `scoreSum` against the `{score: count}` table model of C12 (`Score.scoreVoting` with `sum`) -/
-def scoreTableCheck (p : SProfile) : Except String Unit := do
-  let ip ← p.mapM (fun bw => if bw.2.den = 1 then pure (bw.1, bw.2.num) else throw "score_sum: integral counts expected")
-  let cfg : Score.Cfg := { fn := .sum, unscored := .none, minCount := 0, trunc := .off, bottom := 0 }
-  match Score.scoreVoting cfg ip 1 with
-  | .ok r => if r = evalScoreSum p then pure () else throw "score_sum: table model and sum model differ"
-  | .error _ => throw "score_sum: table model refuses"
+def intProfile (p : SProfile) : Except String Score.SProfile :=
+  p.mapM (fun bw => if bw.2.den = 1 then pure (bw.1, bw.2.num) else throw "score_sum: integral counts expected")
+
+def tableCfg (un : Score.Unscored) : Score.Cfg := { fn := .sum, unscored := un, minCount := 0, trunc := .off, bottom := 0 }
+
+/-- the `unscored_value` of the request: null, a number, or "min" -/
+inductive UnscoredParam where
+  | none | value (u : Rat) | min
+
+def pUnscored (j : Json) : Except String UnscoredParam :=
+  match j.getObjVal? "param" with
+  | .ok Json.null => pure .none
+  | .ok (Json.str "min") => pure .min
+  | .ok v => do pure (.value (← jsonRat v))
+  | .error _ => pure .none
+
+/-- one-seat result of `ScoreVoting('sum', unscored_value=…)`: the sum models of VotelibModel.Mono, cross-checked against
+    the `{score: count}` table model of C12 (`Score.scoreVoting`); `unscored_value='min'` is evaluated by the table
+    model only -/
+def evalScore (un : UnscoredParam) (p : SProfile) : Except String Json := do
+  let ip ← intProfile p
+  match un with
+  | .none =>
+    match Score.scoreVoting (tableCfg .none) ip 1 with
+    | .ok r => if r = evalScoreSum p then pure (slotsJson r) else throw "score_sum: table model and sum model differ"
+    | .error _ => throw "score_sum: table model refuses"
+  | .value u =>
+    match Score.scoreVoting (tableCfg (.value u)) ip 1 with
+    | .ok r => if r = evalScoreSumU u p then pure (slotsJson r) else throw "score_sum: table model and sum model differ (unscored value)"
+    | .error _ => throw "score_sum: table model refuses"
+  | .min => pure (exceptJson slotsJson (Score.scoreVoting (tableCfg .min) ip 1))
 
 def handle (op : String) (j : Json) : Option (Except String Json) :=
   match op with
@@ -152,8 +177,9 @@ def handle (op : String) (j : Json) : Option (Except String Json) :=
       else if rule = "score_sum" then
         let b ← pDict pScoreBallot jb
         let p ← pDict pScoreBallot jp
-        scoreTableCheck b
-        scoreTableCheck p
+        let un ← pUnscored j
+        let rb ← evalScore un b
+        let rp ← evalScore un p
         let moved ← match kind with
           | "new" => do pure (addTo b (← pScoreBallot (← mv.getObjVal? "ballot")) 1)
           | "raise" => do
@@ -161,7 +187,7 @@ def handle (op : String) (j : Json) : Option (Except String Json) :=
             let s ← getRat mv "score"
             pure (replaceUnit b x (raiseScore w s x))
           | k => throw s!"score_sum: unknown move {k}"
-        pure (answer (slotsJson (evalScoreSum b)) (slotsJson (evalScoreSum p)) (some (dictJson scoreBallotJson moved)))
+        pure (answer rb rp (some (dictJson scoreBallotJson moved)))
       else
         match ← rankedRule rule j with
         | none => throw s!"unknown rule {rule}"
